@@ -70,3 +70,4 @@ revert 44f4b4d C08
 revert 57b16f7 C08
 revert f23e696 C06
 revert b8305ae C02
+revert 8c12c05 C04
